@@ -116,4 +116,175 @@ example : authDecision ⟨.GET, false, .absent, .valid, .absent, false⟩ = .run
 example : authDecision ⟨.GET, false, .invalid, .valid, .absent, false⟩ = .s403auth := by decide
 example : (⟨.GET, false, .invalid, .absent, .absent, false⟩ : Req).noCredential = true := by decide
 
+
+/-! ## the credential checks as code, over histories of password changes and requests -/
+
+private theorem authC_run (verify : Bytes → Bytes → Bool) (σ : Bytes) (ck : Bool) (q : RawReq)
+    (h : (authC verify σ ck q).handlerRan = true) : ck = true ∨ carriesValidPassword verify σ q = true := by
+  unfold authC at h
+  by_cases hc : ck = true
+  · exact Or.inl hc
+  · right
+    simp only [hc] at h
+    unfold carriesValidPassword
+    cases he : extractPassword q with
+    | none => simp [he, Outcome.handlerRan] at h
+    | some pw =>
+      simp only [he] at h ⊢
+      by_cases hv : isValidPassword verify σ pw = true
+      · exact hv
+      · simp [hv, Outcome.handlerRan] at h
+
+private theorem serveC_run (verify : Bytes → Bytes → Bool) (r : Route) (hw : ∀ m ∈ r.methods, m ∈ r.wrapped)
+    (σ : Bytes) (ck : Bool) (q : RawReq) (h : (serveC verify r σ ck q).handlerRan = true) :
+    ck = true ∨ carriesValidPassword verify σ q = true := by
+  unfold serveC at h
+  split at h; · simp [Outcome.handlerRan] at h
+  split at h; · simp [Outcome.handlerRan] at h
+  split at h; · simp [Outcome.handlerRan] at h
+  split at h; · simp [Outcome.handlerRan] at h
+  rename_i h4
+  have hm : q.method ∈ r.methods := by simpa using h4
+  have : r.wrapped.contains q.method = true := by simpa using hw _ hm
+  simp only [this, if_true] at h
+  exact authC_run verify σ ck q h
+
+private theorem serveC_setcookie (verify : Bytes → Bytes → Bool) (r : Route) (σ : Bytes) (ck : Bool) (q : RawReq)
+    (h : serveC verify r σ ck q = .run true) : carriesValidPassword verify σ q = true := by
+  unfold serveC at h
+  split at h; · cases h
+  split at h; · cases h
+  split at h; · cases h
+  split at h; · cases h
+  split at h
+  · unfold authC at h
+    split at h; · cases h
+    unfold carriesValidPassword
+    cases he : extractPassword q with
+    | none => simp [he] at h
+    | some pw =>
+      simp only [he] at h ⊢
+      by_cases hv : isValidPassword verify σ pw = true
+      · exact hv
+      · simp [hv] at h
+  · cases h
+
+/-- **no handler body without a credential — every route, method, header text, whatever argon2 says, in any world**:
+    on every mitmweb route the handler body runs only if the request presents a session cookie this Application issued
+    or the password extracted from its `Authorization` / `token` is accepted by the password configuration in force. -/
+theorem handler_needs_credential (verify : Bytes → Bytes → Bool) :
+    ∀ r ∈ webRoutes, r.appRoute = true → ∀ (w : World) (q : RawReq),
+      (serveC verify r w.password (w.cookieOk q) q).handlerRan = true →
+      w.cookieOk q = true ∨ carriesValidPassword verify w.password q = true := by
+  intro r hr ha w q h
+  exact serveC_run verify r (all_methods_wrapped r hr ha) w.password _ q h
+
+/-- **session cookies trace back to a password**: after any history of password changes and requests, every session
+    cookie that exists was either there at the start or was issued to a request of the history that carried a password
+    valid under the configuration in force at that moment. -/
+theorem issued_cookie_provenance (verify : Bytes → Bytes → Bool) (hashOk : Bytes → Bool) :
+    ∀ (evs : List Ev) (w0 : World) (c : Nat), c ∈ (runW verify hashOk w0 evs).issued →
+      c ∈ w0.issued ∨ ∃ pre r q post, evs = pre ++ Ev.req r q c :: post ∧
+        carriesValidPassword verify (runW verify hashOk w0 pre).password q = true := by
+  intro evs
+  induction evs with
+  | nil => intro w0 c h; exact Or.inl h
+  | cons e es ih =>
+    intro w0 c h
+    simp only [runW] at h
+    rcases ih _ c h with h1 | ⟨pre, r, q, post, he, hv⟩
+    · cases e with
+      | setPw v fresh => exact Or.inl (by simpa [stepW] using h1)
+      | req r q newId =>
+        simp only [stepW] at h1
+        by_cases ho : serveC verify r w0.password (w0.cookieOk q) q = .run true
+        · simp only [ho, if_true, List.mem_cons] at h1
+          rcases h1 with h1 | h1
+          · subst h1
+            exact Or.inr ⟨[], r, q, es, rfl, by simpa [runW] using serveC_setcookie verify r _ _ q ho⟩
+          · exact Or.inl h1
+        · simp only [ho, if_false] at h1
+          exact Or.inl h1
+    · exact Or.inr ⟨e :: pre, r, q, post, by simp [he], by simpa [runW] using hv⟩
+
+/-- **over rotation histories**: start with no session cookie issued; after any history, a request on a mitmweb route
+    reaches its handler only if it carries the password of the configuration in force *now*, or a cookie that an
+    earlier request of this very history obtained with the password in force *then*. -/
+theorem hist_no_credential_no_handler (verify : Bytes → Bytes → Bool) (hashOk : Bytes → Bool) (p0 : Bytes) :
+    ∀ r ∈ webRoutes, r.appRoute = true → ∀ (evs : List Ev) (q : RawReq),
+      let w := runW verify hashOk ⟨p0, []⟩ evs
+      (serveC verify r w.password (w.cookieOk q) q).handlerRan = true →
+      carriesValidPassword verify w.password q = true ∨
+      ∃ c pre r' q' post, q.cookie = some c ∧ evs = pre ++ Ev.req r' q' c :: post ∧
+        carriesValidPassword verify (runW verify hashOk ⟨p0, []⟩ pre).password q' = true := by
+  intro r hr ha evs q w h
+  rcases handler_needs_credential verify r hr ha w q h with hck | hpw
+  · right
+    unfold World.cookieOk at hck
+    cases hc : q.cookie with
+    | none => simp [hc] at hck
+    | some c =>
+      simp only [hc] at hck
+      have hmem : c ∈ w.issued := by simpa using hck
+      rcases issued_cookie_provenance verify hashOk evs ⟨p0, []⟩ c hmem with h0 | ⟨pre, r', q', post, he, hv⟩
+      · simp at h0
+      · exact ⟨c, pre, r', q', post, rfl, he, hv⟩
+  · exact Or.inl hpw
+
+/-- **a rotated plaintext password is revoked at once**: after `web_password` is set to a non-empty plaintext `v`, a
+    cookie-less request whose extracted password differs from `v` is refused on every mitmweb route, whatever was valid before -/
+theorem rotation_revokes_old_password (verify : Bytes → Bytes → Bool) (hashOk : Bytes → Bool) :
+    ∀ r ∈ webRoutes, r.appRoute = true → ∀ (w : World) (v fresh : Bytes) (q : RawReq) (pw : Bytes),
+      v ≠ [] → v.head? ≠ some 36 → q.cookie = none → extractPassword q = some pw → pw ≠ v →
+      let w' := (stepW verify hashOk w (.setPw v fresh)).1
+      (serveC verify r w'.password (w'.cookieOk q) q).handlerRan = false := by
+  intro r hr ha w v fresh q pw hne hd hck he hneq w'
+  have hp : w'.password = v := by
+    simp only [w', stepW, configure, hd, if_false]
+    cases v with
+    | nil => exact absurd rfl hne
+    | cons a b => simp
+  cases hrun : (serveC verify r w'.password (w'.cookieOk q) q).handlerRan with
+  | false => rfl
+  | true =>
+    rcases handler_needs_credential verify r hr ha w' q hrun with h | h
+    · simp [World.cookieOk, hck] at h
+    · simp only [carriesValidPassword, he, hp, isValidPassword, hd, if_false] at h
+      have hv : v = pw := by simpa using h
+      exact absurd hv.symm hneq
+
+/-- the raw-request model refines the abstract one: with the empty password invalid (WebAuth never configures an
+    empty plaintext; an argon2 hash of the empty string is the operator's choice), `serveC` is `serve` of the abstraction -/
+theorem serveC_eq_serve (verify : Bytes → Bytes → Bool) (r : Route) (σ : Bytes) (ck : Bool) (q : RawReq)
+    (h0 : isValidPassword verify σ [] = false) :
+    serveC verify r σ ck q = serve r (abstractReq verify σ ck q) := by
+  have hauth : authC verify σ ck q = authDecision (abstractReq verify σ ck q) := by
+    unfold authC authDecision abstractReq extractPassword
+    by_cases hc : ck = true
+    · simp [hc]
+    · simp only [hc]
+      by_cases hh : (headerPassword q).isEmpty = true
+      · simp only [hh]
+        cases ht : q.token with
+        | absent => simp [h0]
+        | undecodable => simp
+        | text t =>
+          by_cases hte : t.isEmpty = true
+          · have : t = [] := by simpa using hte
+            subst this; simp [h0]
+          · by_cases hv : isValidPassword verify σ t = true <;> simp [hte, hv]
+      · by_cases hv : isValidPassword verify σ (headerPassword q) = true <;> simp [hh, hv]
+  unfold serveC serve
+  simp only [hauth]
+  rfl
+
+/-! non-vacuity / the wrapper's string handling -/
+example : headerPassword ⟨.GET, none, some [66, 101, 97, 114, 101, 114, 32, 112], .absent, .absent, false⟩ = [112] := by decide
+example : headerPassword ⟨.GET, none, some [98, 101, 97, 114, 101, 114, 32, 112], .absent, .absent, false⟩ = [] := by decide   -- "bearer p"
+example : headerPassword ⟨.GET, none, some [66, 101, 97, 114, 101, 114, 32, 32, 112], .absent, .absent, false⟩ = [32, 112] := by decide
+example : extractPassword ⟨.GET, none, some [66, 97, 115, 105, 99, 32, 112], .text [116], .absent, false⟩ = some [116] := by decide
+example : configure (fun _ => true) [] [102] = some [102] ∧ configure (fun _ => false) [36, 120] [102] = none := by decide
+example : isValidPassword (fun _ _ => false) [112] [112] = true ∧ isValidPassword (fun _ _ => false) [36, 112] [36, 112] = false := by
+  decide
+
 end MitmVerif.Props.C46
